@@ -45,7 +45,9 @@ func newPM(options plugintypes.OperatorOptions) (plugintypes.Operator, error) {
 	data := options.Arguments
 
 	data = strings.ToLower(data)
-	dict := strings.Split(data, " ")
+	// consecutive spaces yield empty phrases; the automaton's prefilter handles them inconsistently
+	// (they match every input or none depending on the other phrases), so they are dropped
+	dict := dropEmpty(strings.Split(data, " "))
 	builder := ahocorasick.NewAhoCorasickBuilder(ahocorasick.Opts{
 		AsciiCaseInsensitive: true,
 		MatchOnlyWholeWords:  false,
@@ -56,6 +58,17 @@ func newPM(options plugintypes.OperatorOptions) (plugintypes.Operator, error) {
 	m, _ := memoizeDo(options.Memoizer, "pm:"+data, func() (any, error) { return builder.Build(dict), nil })
 	// TODO this operator is supposed to support snort data syntax: "@pm A|42|C|44|F"
 	return &pm{matcher: m.(ahocorasick.AhoCorasick), minLen: minPatternLen(dict)}, nil
+}
+
+// dropEmpty returns patterns without its empty strings.
+func dropEmpty(patterns []string) []string {
+	kept := make([]string, 0, len(patterns))
+	for _, p := range patterns {
+		if p != "" {
+			kept = append(kept, p)
+		}
+	}
+	return kept
 }
 
 func (o *pm) Evaluate(tx plugintypes.TransactionState, value string) bool {
